@@ -20,6 +20,8 @@ TReset == Step("reset") /\ scen' = E.scen /\ stype' = E.sock /\ conn' = {} /\ id
 TSide == Step("side") /\ side' = Put(side, E.c, E.side) /\ UNCHANGED <<avars, scen, fwd, caps, hascap, ended>> /\ NoFlag
 TAttachRet == Step("attach_ret") /\ UNCHANGED <<scen, side, fwd, caps, hascap, ended>> /\ NoFlag /\ (IF E.res = "ok" THEN DoAdmit(E.c, E.id) ELSE UNCHANGED avars)
 TWrote == Step("peer_wrote") /\ UNCHANGED <<scen, side, fwd, caps, hascap, ended>> /\ NoFlag /\ DoWrote(E.c, E.m)
+\* a client or worker closed its connection (a client that restarts comes back on a new connection under its identity)
+TCut == Step("peer_cut") /\ UNCHANGED <<scen, side, fwd, caps, hascap, ended>> /\ NoFlag /\ DoCut(E.c, "eof")
 Fronts == {c \in conn : Get(side, c, "front") = "front"}
 Backs == {c \in conn : Get(side, c, "front") = "back"}
 \* a complete message left the proxy on connection E.c
@@ -38,8 +40,11 @@ TWire == Step("wire") /\ UNCHANGED <<stype, conn, ident, cut, credit, scen, side
    ELSE \* a client's connection: must be Tail of the head reply of some worker, addressed to this client
         LET src == {b \in Backs : Pend(b) # <<>> /\ Len(Head(Pend(b))) >= 2 /\ Tail(Head(Pend(b))) = E.m /\ Head(Pend(b))[1] = ident[E.c]}
             wrongclient == {b \in Backs : Pend(b) # <<>> /\ Len(Head(Pend(b))) >= 2 /\ Tail(Head(Pend(b))) = E.m /\ Head(Pend(b))[1] # ident[E.c]}
-            later == {b \in Backs : \E i \in 2..Len(Pend(b)) : Len(Pend(b)[i]) >= 2 /\ Tail(Pend(b)[i]) = E.m} IN
-        IF src # {} THEN LET b == CHOOSE x \in src : TRUE IN
+            later == {b \in Backs : \E i \in 2..Len(Pend(b)) : Len(Pend(b)[i]) >= 2 /\ Tail(Pend(b)[i]) = E.m}
+            \* the client of that identity is on a newer connection now: its replies belong there, not on the one it closed
+            stale == E.c \in DOMAIN cut /\ \E n \in Fronts : n # E.c /\ ident[n] = ident[E.c] /\ n \notin DOMAIN cut IN
+        IF stale THEN UNCHANGED <<pend, fwd, caps>> /\ Flag("C15/reply-on-stale-connection")
+        ELSE IF src # {} THEN LET b == CHOOSE x \in src : TRUE IN
              pend' = SetPend(b, Tail(Pend(b))) /\ fwd' = Append(fwd, Head(Pend(b))) /\ UNCHANGED caps /\ NoFlag
         ELSE IF wrongclient # {} THEN UNCHANGED <<pend, fwd, caps>> /\ Flag("C15/foreign-reply")
         ELSE IF later # {} THEN UNCHANGED <<pend, fwd, caps>> /\ Flag("C15/out-of-order")
@@ -55,9 +60,9 @@ TQuiescent == Step("quiescent") /\ UNCHANGED <<avars, scen, side, fwd, caps, has
 TEnded == Step("proxy_ended") /\ UNCHANGED <<avars, scen, side, fwd, caps, hascap>> /\ ended' = TRUE /\
    IF dead THEN NoFlag ELSE Flag("C15/proxy-stopped")
 TPanic == Step("panic") /\ UNCHANGED <<avars, scen, side, fwd, caps, hascap, ended>> /\ Flag("C03/panic")
-Ignored == {"observed", "peer_part", "peer_bytes", "attach_call", "attach_pending", "released", "proxy_pending", "end", "pipe", "peer_cut", "harness_error"}
+Ignored == {"observed", "peer_part", "peer_bytes", "attach_call", "attach_pending", "released", "proxy_pending", "end", "pipe"}
 TIgnore == l <= NRec /\ E.ev \in Ignored /\ l' = l + 1 /\ UNCHANGED <<avars, scen, side, fwd, caps, hascap, ended>> /\ NoFlag
-TNext == TReset \/ TSide \/ TAttachRet \/ TWrote \/ TWire \/ TQuiescent \/ TEnded \/ TPanic \/ TIgnore
+TNext == TReset \/ TSide \/ TAttachRet \/ TWrote \/ TCut \/ TWire \/ TQuiescent \/ TEnded \/ TPanic \/ TIgnore
 TSpec == TInit /\ [][TNext]_tvars
 Accepted == Consumed
 =============================================================================
